@@ -153,3 +153,59 @@ def c10(run):
     run.assumptions = ['armor data is abstracted to its length in the model; content enters only through the CRC, which the harness recomputes independently',
                        'block types and header maps are abstract in the model; concrete sets are fixed in the harness']
     run.notes['trusted_base'] = TRUSTED
+
+
+# ---------------------------------------------------------------------------
+# C17  packet framing
+
+def framing_cfg(exps, finals, maxpartial, tags, invs, fills=(8192, 100), encmax=70000):
+    st = lambda xs: '{' + ', '.join(str(x) for x in xs) + '}'
+    return f"""CONSTANTS
+  Exps = {st(exps)}
+  Finals = {st(finals)}
+  MaxPartial = {maxpartial}
+  Tags = {st(tags)}
+  ChunkSizes = {{512, 1024, 65536}}
+  Hdrs = {{1, 6, 36, 261}}
+  Payloads = {{0, 1, 250, 251, 475, 476, 477, 505, 506, 507, 511, 512, 513, 987, 988, 989, 1017, 1018, 1019, 1023, 1024, 1530, 2041, 2042, 2043, 65274, 65275, 65276, 65499, 65500, 65501, 65530, 65535, 65536}}
+  EncMax = {encmax}
+  FillSizes = {st(fills)}
+  Framings <- MCFramings
+SPECIFICATION RSpec
+INVARIANTS {invs}
+CHECK_DEADLOCK FALSE
+"""
+
+
+@prop('C17', 'model_checking')
+def c17(run):
+    inv = 'ReaderComplete ReaderSound NeverMisSplit WriterLegal'
+    tags = [2, 8, 9, 11, 13, 18, 20, 40]
+    run.mc('MCFraming', framing_cfg([0, 8, 9, 10, 13], [0, 1, 191, 192, 8383, 8384], run.q(2, 3), tags, inv,
+                                    encmax=run.q(20000, 70000)), name='mc', timeout=run.q(300, 1500))
+    # generation: wider exponent set, emitted from the initial states only (no Next exploration needed)
+    g = run.mc('MCFraming', framing_cfg(run.q([0, 8, 9, 10, 16], [0, 1, 8, 9, 10, 13, 16]), [0, 1, 191, 192, 8383, 8384, 70000],
+                                        2, tags + [60], 'GenFraming GenWriter GenHdr', fills=(1073741824,), encmax=10),
+               name='gen', count=False, timeout=900)
+    cases = g.cases
+    if run.replay and run.replay.get('source_case'):
+        cases = [run.replay['source_case']]
+    for i, c in enumerate(cases):
+        c['ci'] = i
+    body, summary, oks = run.harness('c17', cases)
+    run.distinct_nontrivial = summary['extra']['nontrivial']
+    run.traces_validated = summary['evaluations']
+    run.exhaustive = True
+    run.rule = ('TLC enumerates every encodable framing (new/old header, tags incl. non-data/unassigned, 0..2 partial chunks '
+                'of the exponent set + final fixed chunk from the boundary set, chains ending in a partial chunk, '
+                'indeterminate) x supplied-octet counts (complete, truncated by 1/2, at the first chunk boundary, empty) with '
+                'the verdict the specification demands, plus the partial-writer chunking for (chunk size, header, payload) '
+                'triples. The harness builds each with an independent framer around a valid body, parses it with '
+                'PacketParser (compared with the canonical fixed framing, sentinel packet must follow) and, for literal '
+                'packets, through Message under source schedules and consumer sizes; library-written streams are deframed '
+                'independently and checked for legality and truthful lengths. non-trivial = framings with >= 2 chunks')
+    run.add_samples([c for c in cases if c.get('kind') == 'framing' and len(c['f']['chunks']) > 1][:2] + [c for c in cases if c.get('kind') == 'writer'][:1])
+    run.add_samples(oks[:1])
+    run.assumptions = ['packet bodies are lengths in the model; harness supplies valid bodies per tag',
+                       'reader buffer size (8 KiB) is incidental: the model lets one fill deliver 100 or 8192 octets']
+    run.notes['trusted_base'] = TRUSTED
